@@ -23,7 +23,8 @@ CLAIMED["C10"] = dict(
     level="model_checking",
     text="Every section configuration of the stated alphabet (full product for <=1-2 extra sections, deviation-bounded beyond) is built "
          "on a real CodeHolder; flatten/code_size/copy_flattened_data (every boundary destination size x all flag sets, guard bands) and "
-         "relocate_to_base are checked against the statement-level layout oracle in every configuration.",
+         "relocate_to_base are checked against the statement-level layout oracle in every configuration; a family of layouts that reach 4 GiB and end within an alignment "
+         "step of 2^64 is judged against a 128-bit reference (unrepresentable layouts must be refused).",
     note="Trusts the harness oracle; alignments/orders/sizes outside the alphabet and more than 4 extra sections are not explored.",
     technique="bounded exhaustive enumeration of configurations (deviation-bounded DFS over choice points) on the implementation with reference layout oracle",
     design_ref="3/C10")
@@ -33,7 +34,8 @@ CLAIMED["C09"] = dict(
     text="Explicit-state BFS over all histories of alloc/release/shrink/write+shrink/reset on the real JitAllocator (64 KiB blocks, <=4 live "
          "spans) per option set and granularity; after every transition the span model, queries (live, released, padding, free, foreign, null), "
          "statistics, aliasing of rx/rw, fill pattern, reuse of freed memory, empty-block policy and the used/stop bit vectors are checked. "
-         "States are merged on the allocator's complete bookkeeping state.",
+         "States are merged on the allocator's complete bookkeeping state. Further phases start from non-initial states (exactly filled blocks; a full block with two holes whose "
+         "search window was cached by a failed scan next to a full second block) and walk the block-growth steps (2B-pad, 2B, 4B).",
     note="Trusts the harness model; block size fixed to the smallest legal one; histories deeper than the bound and more than 4 live spans "
          "are not explored; large pages only as far as the kernel grants them; the 'random to 10^5 operations' part of the quantifier is "
          "replaced by BFS on canonical states.",
@@ -119,7 +121,7 @@ CLAIMED["C18"] = dict(
          "ArenaPool, String/StringTmp and all pairs of containers sharing one arena (heap and dirty static arenas, reset soft/hard), plus exhaustive sweeps (all tree "
          "insertion/removal orders for n<=7, all request sizes, all bit-vector primitive arguments, hash growth table); std:: reference models, structural invariants "
          "and an arena partition invariant after every operation; ASan/UBSan are part of the oracle. Arena::sformat for every output length 0..1100 (4200) on heap "
-         "and static-block arenas.",
+         "and static-block arenas; every aligned one-shot request size next to the managed block sizes.",
     note="Depth bounds per part (quick 3-7, thorough 4-9); key/size alphabets are finite.",
     technique="explicit-state BFS over operation histories on the implementation with reference-model oracle",
     design_ref="3/C18", engine="harness/c18_containers.cpp")
@@ -162,8 +164,8 @@ CLAIMED["C06"] = dict(
 
 CLAIMED["C15"] = dict(
     level="fault_enumeration",
-    text="16 workloads (assembler with labels/sections/relocations/address table, builder, x86 and a64 compiler with spills/calls/jump tables/const pools, JitRuntime single/dual "
-         "mapping, containers, const pool, String, arena; fresh and recycled objects): for every class (arena requests through hook H1, heap through --wrap malloc/realloc/calloc, "
+    text="17 workloads (assembler with labels/sections/relocations/address table, builder, x86 and a64 compiler with spills/calls/jump tables/const pools, JitRuntime single/dual "
+         "mapping, containers, const pool, String, arena; fresh and recycled objects; a Builder + Assembler pair reused directly after a failed reinit()): for every class (arena requests through hook H1, heap through --wrap malloc/realloc/calloc, "
          "virtual memory through --wrap mmap/munmap/mprotect/ftruncate/memfd) every single failure position k and pairs (same class and cross class within bounds), each in a "
          "forked child under ASan/UBSan: no crash/UB/leak, error or identical output, objects recover (reset/reinit/destroy), retry on the same and on fresh objects equals the clean run.",
     note="At most two injected failures per run; failing munmap/close/free is not injected; far-apart pairs in the largest workload are outside the quick window.",
